@@ -2981,3 +2981,158 @@ def g_vmask(rng):
 
 def run_vmask(v, exc_code):
     return run_payload(obj_vmask, lambda o: c_vmask_d(vmask_of_obj(o)), v, {}, {}, wf_vmask(v), exc_code)
+
+
+# ----------------------------------------------------------------------------- Stage 3 (3): linked layers (Psd/Linked.v)
+# linked desc: [kind, version, uuid bytes, filename units, filetype, creator, filesize|None, open|None, linked|None,
+#               timestamp|None (6 ints, the last a double pattern), data|None, child units|None, mod_time bits|None, lock|None]
+#               open / linked = [version, dval desc ('desc', Objc)]
+K_LIFD, K_LIFE, K_LIFA = fcc(b"liFD"), fcc(b"liFE"), fcc(b"liFA")
+
+
+def coq_linked(l):
+    blk = lambda b: "(DBlock %s %s)" % (z(b[0]), coq_dval(b[1]))
+    zl = lambda x: coq_list(z, x)
+    return "(mkLinked %s %s %s %s %s %s %s %s %s %s %s %s %s %s)" % (
+        z(l[0]), z(l[1]), coq_bytes(l[2]), zl(l[3]), z(l[4]), z(l[5]), coq_opt(z, l[6]), coq_opt(blk, l[7]), coq_opt(blk, l[8]),
+        coq_opt(zl, l[9]), coq_opt(coq_bytes, l[10]), coq_opt(zl, l[11]), coq_opt(z, l[12]), coq_opt(z, l[13]))
+
+
+def c_linked_d(l):
+    blk = lambda b: [1, b[0]] + c_dval_d(b[1])
+    cz = lambda x: [x]
+    cl = lambda x: c_list(cz, x)
+    return [l[0], l[1]] + c_bytes(l[2]) + cl(l[3]) + [l[4], l[5]] + c_opt(cz, l[6]) + c_opt(blk, l[7]) + c_opt(blk, l[8]) + \
+        c_opt(cl, l[9]) + c_opt(c_bytes, l[10]) + c_opt(cl, l[11]) + c_opt(cz, l[12]) + c_opt(cz, l[13])
+
+
+def obj_linked(l):
+    from psd_tools.constants import LinkedLayerType
+    from psd_tools.psd import descriptor as D
+    from psd_tools.psd.linked_layer import LinkedLayer
+
+    def blk(b):
+        if b is None:
+            return None
+        body = obj_dval(b[1])
+        return D.DescriptorBlock(version=b[0], items=list(body.items()), name=body.name, classID=body.classID)
+
+    ts = None if l[9] is None else tuple(l[9][:5]) + tuple(bits_dbl(x) for x in l[9][5:])
+    return LinkedLayer(LinkedLayerType(l[0].to_bytes(4, "big")), l[1], bytes(l[2]).decode("macroman"), units_to_str(l[3]),
+                       l[4].to_bytes(4, "big"), l[5].to_bytes(4, "big"), l[6], blk(l[7]), blk(l[8]), ts,
+                       None if l[10] is None else bytes(l[10]), None if l[11] is None else units_to_str(l[11]),
+                       None if l[12] is None else bits_dbl(l[12]), l[13])
+
+
+def linked_of_obj(o):
+    def blk(b):
+        if b is None:
+            return None
+        d = dval_of_obj(b)
+        return [b.version, d]
+
+    ts = None if o.timestamp is None else [int(x) for x in o.timestamp[:5]] + [dbl_bits(x) for x in o.timestamp[5:]]
+    return [fcc(kb(o.kind)), o.version, o.uuid.encode("macroman"), str_to_units(o.filename), fcc(o.filetype), fcc(o.creator), o.filesize,
+            blk(o.open_file), blk(o.linked_file), ts, None if o.data is None else bytes(o.data),
+            None if o.child_id is None else str_to_units(o.child_id), None if o.mod_time is None else dbl_bits(o.mod_time), o.lock_state]
+
+
+def wf_linked(l):
+    some = lambda x: x is not None
+    okb = lambda b: b is None or (b[0] == 16 and b[1][0] == "desc" and b[1][1] == OSC["Objc"] and wf_dval(b[1]))
+    k, v = l[0], l[1]
+    if not (k in (K_LIFD, K_LIFE, K_LIFA) and 1 <= v <= 7 and okb(l[7])):
+        return False
+    if k == K_LIFE:
+        if not (some(l[8]) and okb(l[8]) and some(l[9]) == (v > 3) and some(l[6]) and some(l[10]) == (v >= 2)):
+            return False
+    elif some(l[8]) or some(l[9]) or some(l[6]) or some(l[10]) != (k == K_LIFD):
+        return False
+    return some(l[11]) == (v >= 5) and some(l[12]) == (v >= 6) and some(l[13]) == (v >= 7)
+
+
+def g_linked(rng, terms, units, wf=True):
+    k = rng.choice([K_LIFD, K_LIFE, K_LIFA])
+    v = rng.choice([1, 2, 3, 4, 5, 6, 7])
+
+    def blk():
+        d = g_dval(rng, terms, units, kinds=["desc"])
+        d[1] = OSC["Objc"]
+        return [16, d]
+
+    data = lambda: bytes(rng.randrange(256) for _ in range(rng.choice([0, 1, 2, 3, 4, 7, 33])))
+    uuid = bytes(rng.choice(b"0123456789abcdef-") for _ in range(rng.choice([0, 1, 36, 255]) if rng.random() < 0.9 else 36)) \
+        if rng.random() < 0.9 else bytes(rng.randrange(256) for _ in range(5))
+    ts = lambda: [g_u(rng, 4), rng.randrange(256), rng.randrange(256), rng.randrange(256), rng.randrange(256), g_dbl_bits(rng)]
+    l = [k, v, uuid, g_units16(rng), g_u(rng, 4), g_u(rng, 4), None, blk() if rng.random() < 0.3 else None, None, None, None,
+         g_units16(rng) if v >= 5 else None, g_dbl_bits(rng) if v >= 6 else None, rng.choice([0, 1, 255]) if v >= 7 else None]
+    if k == K_LIFE:
+        l[8] = blk()
+        l[9] = ts() if v > 3 else None
+        l[6] = rng.choice([0, 1, 2 ** 64 - 1, g_u(rng, 4)])
+        l[10] = data() if v >= 2 else None
+    elif k == K_LIFD:
+        l[10] = data()
+    if not wf:
+        # one contradiction between the version / kind and what is present
+        m = rng.randrange(9)
+        if m == 0:
+            l[11] = None if l[11] is not None else g_units16(rng)
+        elif m == 1:
+            l[12] = None if l[12] is not None else g_dbl_bits(rng)
+        elif m == 2:
+            l[13] = None if l[13] is not None else 7
+        elif m == 3:
+            l[10] = None if l[10] is not None else data()
+        elif m == 4:
+            l[9] = None if l[9] is not None else ts()
+        elif m == 5:
+            l[6] = None if l[6] is not None else 5
+        elif m == 6:
+            l[8] = None if l[8] is not None else blk()
+        elif m == 7:
+            l[1] = rng.choice([0, 8, 2 ** 32 - 1])
+        else:
+            (l[7] or l[8] or [0])[0] = 15
+    return l
+
+
+def run_linked(lst, exc_code):
+    """LinkedLayers of the described items -> (outcome as Corr.linked_outcome, info); the term set is restored afterwards"""
+    from psd_tools.psd import descriptor as D
+    from psd_tools.psd.linked_layer import LinkedLayers
+
+    wf = int(all(wf_linked(l) for l in lst))
+    try:
+        o = LinkedLayers([obj_linked(l) for l in lst])
+    except Exception as e:
+        return None, {"stage": "build", "err": e}
+    t0 = set(D._TERMS)
+    f = io.BytesIO()
+    try:
+        n = o.write(f)
+    except Exception as e:
+        return [exc_code(e)], {"stage": "write", "err": e}
+    b = f.getvalue()
+    out = [0, n, h63_list(0, list(b))]
+    info = {"stage": None, "obj": o, "bytes": b, "written": n}
+    try:
+        y = LinkedLayers.frombytes(b)
+        cy = c_list(lambda x: c_linked_d(linked_of_obj(x)), list(y))
+    except Exception as e:
+        D._TERMS.clear()
+        D._TERMS.update(t0)
+        info.update(stage="read", err=e)
+        return out + [exc_code(e), wf], info
+    grown = len(D._TERMS) - len(t0)
+    D._TERMS.clear()
+    D._TERMS.update(t0)
+    co = c_list(c_linked_d, lst)
+    f2 = io.BytesIO()
+    try:
+        y.write(f2)
+        same = f2.getvalue() == b
+    except Exception:
+        same = False
+    info.update(reread=y, eq=bool(y == o), same_canon=cy == co, rewrite_same=same, grown=grown)
+    return out + [0, h63_list(0, cy), int(cy == co), grown, wf], info
